@@ -369,6 +369,7 @@ type PubRec struct {
 	Topic     string
 	IDs       []string
 	Originals []*message.Message
+	Pre       []string // settlement of each original at Publish time (a forwarded message was settled by its consumer before)
 	Snaps     []lib.Snap
 	StartT    int64
 	EndT      int64
@@ -396,6 +397,7 @@ type History struct {
 	Subs        []*SubRec
 	SideRecv    int
 	SidePub     int
+	SidePubs    []*SidePubRec
 	ParkReached bool
 	ParkWanted  bool
 	closing     bool
@@ -522,6 +524,16 @@ func Run(p Prog) *History {
 					pcancel()
 					m.SetContext(pctx)
 				}
+				// a message that is forwarded after it was consumed elsewhere has been settled already: the deliveries are
+				// copies with a life of their own
+				switch (3*pi + c + 2*i) % 7 {
+				case 2:
+					m.Ack()
+				case 5:
+					m.Nack()
+				}
+				a, n := lib.Settled(m)
+				pr.Pre = append(pr.Pre, fmt.Sprintf("acked=%v nacked=%v", a, n))
 				pr.IDs = append(pr.IDs, id)
 				pr.Originals = append(pr.Originals, m)
 				pr.Snaps = append(pr.Snaps, lib.SnapOf(m))
@@ -697,6 +709,14 @@ func (h *History) pending() string {
 	return b.String()
 }
 
+// SidePubRec is one nested Publish call made by a subscriber while it holds a message.
+type SidePubRec struct {
+	ID, Topic    string
+	StartT, EndT int64
+	Err          error
+	OwnCtx       bool // the follow-up carried the context of the message being processed
+}
+
 func (h *History) consume(g *gochannel.GoChannel, i int, ch <-chan *message.Message, cancel context.CancelFunc) {
 	spec := h.Prog.Subs[i]
 	sr := h.Subs[i]
@@ -742,6 +762,9 @@ func (h *History) consume(g *gochannel.GoChannel, i int, ch <-chan *message.Mess
 		if spec.Side || r.AfterCancel {
 			b = Behav{Kind: BAck}
 		}
+		if spec.Side && h.Prog.Blocking {
+			time.Sleep(200 * time.Microsecond) // a subscriber takes its time: a blocking Publish waits for it
+		}
 		switch b.Kind {
 		case BAck:
 			settle(true)
@@ -782,12 +805,21 @@ func (h *History) consume(g *gochannel.GoChannel, i int, ch <-chan *message.Mess
 			cancel()
 			return
 		case BPublishSideThenAck:
-			sm := message.NewMessage("side-"+id, []byte("side"))
-			if err := g.Publish(h.Prog.sideTopicOf(id), sm); err == nil {
-				h.mu.Lock()
-				h.SidePub++
-				h.mu.Unlock()
+			sm := message.NewMessage("side-"+id, []byte("payload-side-"+id))
+			sp := &SidePubRec{ID: "side-" + id, Topic: h.Prog.sideTopicOf(id), OwnCtx: (i+len(id)+count[id])%2 == 0}
+			if sp.OwnCtx {
+				// a follow-up usually carries the context of the message it follows (tracing, deadlines)
+				sm.SetContext(m.Context())
 			}
+			sp.StartT = lib.Tick()
+			sp.Err = g.Publish(sp.Topic, sm)
+			sp.EndT = lib.Tick()
+			h.mu.Lock()
+			if sp.Err == nil {
+				h.SidePub++
+			}
+			h.SidePubs = append(h.SidePubs, sp)
+			h.mu.Unlock()
 			settle(true)
 		}
 		if spec.CancelAfter > 0 && total == spec.CancelAfter {
